@@ -502,7 +502,7 @@ SEEDS = [0, 1, 2, 3, 4, 5]
 _SERVERS = {}
 
 
-def seed_call(seed, kind, args):
+def seed_call(seed, kind, args, _retry=True):
     """run SET_KERNELS[kind] on the uninstrumented code in a persistent interpreter started with PYTHONHASHSEED=seed"""
     import atexit
     import subprocess
@@ -515,9 +515,20 @@ def seed_call(seed, kind, args):
                                stdin=subprocess.PIPE, stdout=subprocess.PIPE, stderr=subprocess.DEVNULL, text=True, env=env)
         _SERVERS[seed] = srv
         atexit.register(lambda s=srv: s.kill())
-    srv.stdin.write(json.dumps({"kind": kind, "args": args}) + "\n")
-    srv.stdin.flush()
-    line = srv.stdout.readline()
+    line = ""
+    for attempt in (0, 1):
+        try:
+            srv.stdin.write(json.dumps({"kind": kind, "args": args}) + "\n")
+            srv.stdin.flush()
+            line = srv.stdout.readline()
+        except (BrokenPipeError, OSError):
+            line = ""
+        if line:
+            break
+        _SERVERS.pop(seed, None)  # the interpreter went away (e.g. killed under memory pressure): start a fresh one once
+        if attempt == 0 and _retry:
+            return seed_call(seed, kind, args, _retry=False)
+        break
     if not line:
         raise RuntimeError("seed server %d died" % seed)
     out = json.loads(line)
